@@ -219,7 +219,7 @@ pub fn apply_layout(t: &mut Tape, tokens: &[Tok], dims: &mut LayoutDims, allow_c
     if comment_dim && t.chance(1, 5) {
         out.push_str("--");
         out.push_str(*t.pick(&COMMENTS));
-        out.push('\n');
+        out.push_str(if t.chance(1, 3) { "\r\n" } else { "\n" });
         dims.comments = true;
     }
     for (i, tk) in tokens.iter().enumerate() {
@@ -235,7 +235,7 @@ pub fn apply_layout(t: &mut Tape, tokens: &[Tok], dims: &mut LayoutDims, allow_c
                 sep.push_str(*t.pick(&["", " ", "\n"]));
                 sep.push_str("--");
                 sep.push_str(*t.pick(&COMMENTS));
-                sep.push('\n');
+                sep.push_str(if t.chance(1, 3) { "\r\n" } else { "\n" });
                 dims.comments = true;
             } else if ws_dim && t.chance(1, 3) {
                 sep.push_str(*t.pick(&["  ", "\t", "\n", "\r\n", " \n  ", "\n\n", " \t "]));
@@ -274,7 +274,7 @@ pub fn apply_layout(t: &mut Tape, tokens: &[Tok], dims: &mut LayoutDims, allow_c
         out.push_str(" --");
         out.push_str(*t.pick(&COMMENTS));
         if t.chance(1, 2) {
-            out.push('\n');
+            out.push_str(if t.chance(1, 3) { "\r\n" } else { "\n" });
         }
         dims.comments = true;
     }
